@@ -249,6 +249,27 @@ def src_field(text):
 RATIO, SLACK = 4, 8
 
 
+def model_unanswered(r):
+    return (r in ('NOOUTPUT', 'TIMEOUT', 'UNDECIDED') or r.startswith('CRASH') or r.startswith('MODELEXC'))
+
+
+def run_model(model_exe, cases, timeout=300):
+    """model side: a TIMEOUT / CRASH / MODELEXC / NOOUTPUT is a machinery condition (a loaded machine, a shard that
+    ran out of time), never a verdict: such cases are re-run alone with a generous timeout; what still does not
+    answer is UNDECIDED (counted in evidence, excluded from every comparison and from distinct_nontrivial)"""
+    lines = {c[0]: vlib.model_line(c) for c in cases}
+    res = vlib.run_sharded(model_exe, list(lines.values()), timeout, shards=4 * vlib.NCPU)
+    again = [cid for cid in lines if model_unanswered(res.get(cid, 'NOOUTPUT'))]
+    if again:
+        vlib.log('C10: re-running %d model case(s) alone' % len(again))
+        from concurrent.futures import ThreadPoolExecutor
+        with ThreadPoolExecutor(max_workers=max(1, vlib.NCPU // 2)) as ex:
+            outs = list(ex.map(lambda cid: vlib.run_lines(model_exe, [lines[cid]], timeout=900).get(cid, 'NOOUTPUT'), again))
+        for cid, r in zip(again, outs):
+            res[cid] = 'UNDECIDED' if model_unanswered(r) else r
+    return res
+
+
 def check_depthsem(run, impl_exe, model_exe, rng, tier, stops=True):
     progs = []
     depths = [0, 1, 2, 5, 13] if tier == 'quick' else [0, 1, 2, 3, 4, 5, 6, 8, 11, 13, 17, 21, 34, 55]
@@ -266,13 +287,16 @@ def check_depthsem(run, impl_exe, model_exe, rng, tier, stops=True):
         progs.append(('rand/%d' % i, rand_program(rng)))
     # 1. model without limit: final outcome and peak
     mcases = [('m%d' % i, 'tracelen', ['ds', hx(BIG), hx(FUEL), wire_prog(p)]) for i, (_, p) in enumerate(progs)]
-    mres = vlib.run_sharded(model_exe, [vlib.model_line(c) for c in mcases], timeout=300)
+    mres = run_model(model_exe, mcases)
     icases, mcases2, plan = [], [], []
     for i, (name, p) in enumerate(progs):
         mr = mres.get('m%d' % i, 'NOOUTPUT')
         mc, mtext, peak = parse_model(mr)
         run.count('ds_model_' + (mc if mc != 'bad' else 'bad:' + mr[:20]))
-        if mr.startswith('MODELEXC') or mr in ('NOOUTPUT', 'TIMEOUT') or mr.startswith('CRASH') or mr == 'PANIC':
+        if model_unanswered(mr):
+            run.count('undecided_model_no_answer')
+            continue
+        if mr == 'PANIC':
             run.violation('ds-model-machinery', 'model driver failed on %s: %s' % (name, mr[:80]),
                           {'kind': 'ds', 'prog': repr(p)}, concrete=False)
             continue
@@ -298,13 +322,17 @@ def check_depthsem(run, impl_exe, model_exe, rng, tier, stops=True):
                 mcases2.append((cid, 'tracelen', ['ds', hx(s), hx(FUEL), wire_prog(p)]))
             plan.append((cid, i, s))
     ires = vlib.run_sharded(impl_exe, [vlib.impl_line(c) for c in icases], timeout=300)
-    mres2 = vlib.run_sharded(model_exe, [vlib.model_line(c) for c in mcases2], timeout=300)
+    mres2 = run_model(model_exe, mcases2)
     for cid, i, s in plan:
         name, p = progs[i]
         run.evaluations += 1
         fc, ftext, peak = parse_model(mres['m%d' % i])
         ir = ires.get(cid, 'NOOUTPUT')
         ic, itext, ntr = parse_impl(ir)
+        if s != IMPL_BIG and model_unanswered(mres2.get(cid, 'NOOUTPUT')):
+            run.count('undecided_model_no_answer')
+            run.evaluations -= 1
+            continue
         mc, mtext, _ = parse_model(mres2[cid]) if s != IMPL_BIG else (fc, ftext, peak)
         replay = {'kind': 'ds', 'name': name, 'prog': repr(p), 'stack': s, 'source': js_prog(p), 'impl': ir[:300], 'model': mres2.get(cid, mres['m%d' % i])[:300]}
         run.count('ds_impl_' + ic)
@@ -427,11 +455,14 @@ def check_tracelen_model(run, model_exe, rng, tier):
         cid = 't%d' % i
         cases.append((cid, 'tracelen', ['tl', hx(maxs), hxl(init), ';'.join('%s:%d' % (hxl(c), 1 if f else 0) for c, f in script)]))
         exp[cid] = (py_tracelen(maxs, init, script), balanced)
-    res = vlib.run_sharded(model_exe, [vlib.model_line(c) for c in cases], timeout=120)
+    res = run_model(model_exe, cases)
     for cid, _, fields in cases:
-        run.evaluations += 1
         want, balanced = exp[cid]
         got = res.get(cid, 'NOOUTPUT')
+        if model_unanswered(got):
+            run.count('undecided_model_no_answer')
+            continue
+        run.evaluations += 1
         run.count('tl_' + got.split('\t')[0])
         if got != want:
             run.violation('tl-model-reading', 'extracted TraceLen model answers %s, the direct reading of the Rust loop %s' % (got[:60], want[:60]),
